@@ -374,8 +374,8 @@ func compareOutcome(d Desc, t0 time.Time, what, refErr, gotErr string, pairs [][
 				return s[lo:hi]
 			}
 			return mon.Result{Verdict: mon.Violated, Key: key + ":differs", NonTrivial: true,
-				Detail: fmt.Sprintf("%s rs=%d seed=%d: %s differ between the ideal pipe and the real transport at rendered offset %d:\n ideal: …%s…\n real:  …%s…",
-					d.T, d.ReadSize, d.Seed, names[i], j, clip(a), clip(b))}
+				Detail: fmt.Sprintf("%s %s rs=%d seed=%d: %s differ between the ideal pipe and the real transport at rendered offset %d:\n ideal: …%s…\n real:  …%s…",
+					d.T, d.Version, d.ReadSize, d.Seed, names[i], j, clip(a), clip(b))}
 		}
 	}
 	obs := map[string]int64{"e2e_sessions": 1, "e2e_device_output_bytes": int64(volume)}
